@@ -506,6 +506,68 @@ def c21_shiftshape(R):
     R.need(n3 >= 2, f"_rshift_arithmetic: only {n3} sign fills found")
 
 
+@rule(
+    "C22.signedq",
+    props=("C22", "C24"),
+    floor=3,
+    family="SIB",
+    desc="signed queries: every bound _signed_bounds hands out went through the unsigned-to-signed conversion (both "
+    "north-pole pieces alike: the first one may start in the negative half), and every value eval() lists depends on "
+    "the requested signedness, the single-value shortcut included",
+)
+def c22_signedq(R):
+    tree = R.tree
+    m = tree.mod(SI)
+    fn = util.resolve_locals(tree.func_inlined(SI, "StridedInterval._signed_bounds", exclude=("_unsigned_to_signed", "_nsplit")))
+    n = 0
+    for r in walk_no_nested(fn):
+        if not (isinstance(r, ast.Return) and r.value is not None):
+            continue
+        tuples = [t for t in ast.walk(r.value) if isinstance(t, ast.Tuple) and len(t.elts) == 2 and not any(isinstance(e, ast.Tuple) for e in t.elts)]
+        for i, t in enumerate(tuples):
+            for j, e in enumerate(t.elts):
+                if isinstance(e, ast.Name):
+                    continue  # comprehension variable: judged where it is bound
+                n += 1
+                R.check(
+                    "_unsigned_to_signed(" in ast.unparse(e),
+                    m,
+                    r,
+                    "signed bound converted",
+                    f"_signed_bounds hands out `{norm(e)[:70]}` as the {'lower' if j == 0 else 'upper'} bound of piece {i + 1} without "
+                    f"converting it to a signed number: the first north-pole piece of an interval that wraps past zero starts in "
+                    f"the negative half (<3>7[5, 4] = {{-3, -4}} had signed maximum 5)",
+                    construct=f"_signed_bounds: {'lower' if j == 0 else 'upper'} bound of piece {i + 1 if len(tuples) > 1 else 'the single'}",
+                )
+    R.need(n >= 4, f"_signed_bounds: only {n} bounds found")
+    ev = tree.func_inlined(SI, "StridedInterval.eval")
+    ps = [a.arg for a in ev.args.args]
+    sp = ps[2] if len(ps) > 2 else "signed"
+    k = 0
+    for c in (x for x in walk_no_nested(ev) if isinstance(x, ast.Call) and isinstance(x.func, ast.Attribute) and x.func.attr == "append" and len(x.args) == 1):
+        k += 1
+        arg = c.args[0]
+        facts = _facts(c)
+        dep = any(isinstance(x, ast.Name) and x.id == sp for x in ast.walk(arg)) or any(re.search(rf"\b{sp}\b", f) for f in facts)
+        if not dep and isinstance(arg, ast.Name):
+            # a loop variable unpacked from bounds chosen by `signed`
+            for lp in (x for x in ast.walk(ev) if isinstance(x, ast.For)):
+                if any(isinstance(x, ast.Name) and x.id == arg.id for x in ast.walk(lp.target)):
+                    src = ast.unparse(lp.iter)
+                    defs = [ast.unparse(st.value) for st in walk_no_nested(ev) if isinstance(st, ast.Assign) and len(st.targets) == 1 and ast.unparse(st.targets[0]) == src]
+                    dep = any(re.search(rf"\b{sp}\b", d) for d in [src, *defs])
+        R.check(
+            dep,
+            m,
+            c,
+            "listed value depends on the requested signedness",
+            f"eval() lists `{norm(arg)[:60]}`, which does not depend on `{sp}`: eval(n, signed=True) of the single value 4 at 3 "
+            f"bits gave [4], not [-4]",
+            construct=f"eval: value listed as {norm(arg)[:40]}",
+        )
+    R.need(k >= 2, f"eval: only {k} listed values found")
+
+
 _WIDEN_EXEMPT = {
     "agnostic_extend": "documented signedness-agnostic approximation for operands of different widths (not one of the "
     "operations of the property; well-typed expressions never reach it)",
